@@ -97,9 +97,25 @@ func (fv *FV) havocAll(e *Env) {
 	if fv.curCall != "" {
 		fv.note("whole heap havocked at %s", fv.curCall)
 	}
+	// Ghost call counters (bump: class) count calls made by the code under
+	// contract itself; code outside the module and interface-dispatched callees
+	// cannot make such calls, so the counters survive their havoc.
+	keep := map[string]Term{}
+	if fv.keepCounters != nil {
+		for _, b := range fv.eng.bumpRe {
+			if fv.keepCounters[bumpAll] || fv.keepCounters[b.name] {
+				continue
+			}
+			comp := "G$" + sanitize(b.name)
+			keep[comp] = fv.heapGet(e, comp, arrSort(sRef, sInt))
+		}
+	}
 	fv.nextEpoch++
 	e.epoch = fv.nextEpoch
 	e.heap = map[string]Term{}
+	for c, t := range keep {
+		fv.heapSet(e, c, t)
+	}
 	fv.havocAlloc(e)
 }
 
